@@ -112,17 +112,50 @@ class Native:
         def seq_key(xs):
             return tuple(xs)
 
-        h = dict(same_ref=same_ref, fresh=fresh, distinct=distinct, implies=implies, forall=forall, exists=forall,
+        def is_empty(x):
+            return x is not None and len(x) == 0
+
+        def rev(xs):
+            return list(reversed(xs))
+
+        h = dict(is_empty=is_empty, rev=rev, same_ref=same_ref, fresh=fresh, distinct=distinct, implies=implies, forall=forall, exists=forall,
                  seq_key=seq_key)
         from collections import Counter
         h["Counter"] = Counter
         h.update(getattr(self.uni, "native_globals", {}))
+        h["unfold"] = lambda *a: True
+        h["cut"] = lambda *a: True
+        for fname, rf in self.uni.recfuns.items():
+            h[fname] = self._recfun(fname, rf, h)
         # spec functions are recompiled from their AST (lazy implies) into this namespace
         for name, fnode in self.uni.specs.items():
             fn2 = _LazyImplies().visit(ast.parse(ast.unparse(fnode)))
             ast.fix_missing_locations(fn2)
             exec(compile(fn2, "<spec %s>" % name, "exec"), h)
         return h
+
+    def _recfun(self, fname, rf, h):
+        ps = rf["params"]
+        base = compile(rf["base"], "<recfun>", "eval")
+        step = compile(rf["step"], "<recfun>", "eval")
+
+        def f(*args):
+            n = args[-1]
+            env = dict(h)
+            env.update(zip(ps[:-1], args[:-1]))
+            acc = None
+            memo = {}
+
+            def g(*a):          # f(args..., i) inside the step refers to the value computed so far
+                return memo[a[-1]]
+            env[fname] = g
+            env[ps[-1]] = 0
+            memo[0] = eval(base, env)
+            for i in range(n):
+                env[ps[-1]] = i
+                memo[i + 1] = eval(step, env)
+            return memo[n]
+        return f
 
     def compile(self, src, cname):
         tree = ast.parse(src, mode="eval")
